@@ -142,7 +142,9 @@ fn gen_filter(rng: &mut Rng, nex: usize, nins: usize, defs: &[Def]) -> String {
 ///  2 engines with ONE exchange or with 4-5 exchanges;
 ///  3 positions closed again (`flat`) before the command, some re-opened on the other side;
 ///  4 a tracked order whose client order id equals the id the close-position order will get (9000+i);
-///  5 the same command three times in a row; market price 0.
+///  5 the same command three times in a row; market price 0;
+///  6 NETTING: several account trades on one instrument before the command (increase / reduce / exact close /
+///    flip of the open position: `Position::update_from_trade`'s four arms at the engine level).
 ///
 /// `cfg`: `Some(rng)` = configuration-shape family: a `cfg K <kinds> V <direct|system>` line (drawn from
 /// that separate stream) precedes `init`, and half of the cases wire unhealthy / closed / missing links.
@@ -216,7 +218,7 @@ fn gen_case(rng: &mut Rng, out: &mut Out, tier: &str, dom: Option<u64>, mut cfg:
             rng.pick(&["0.00000001", "0.3", "1234567.891", "0.00000123", "2.5", "10000000", "0.125", "99999.99999999"]).to_string()
         };
         match rng.below(10) {
-            0..=3 if dom != Some(3) => {}
+            0..=3 if dom != Some(3) && dom != Some(6) => {}
             0..=6 => {
                 let q = if dom == Some(1) { dom_qty(rng) } else { (1 + rng.below(3)).to_string() };
                 s.push(format!("ev fill {i} B {q}"))
@@ -224,6 +226,14 @@ fn gen_case(rng: &mut Rng, out: &mut Out, tier: &str, dom: Option<u64>, mut cfg:
             _ => {
                 let q = if dom == Some(1) { dom_qty(rng) } else { (1 + rng.below(3)).to_string() };
                 s.push(format!("ev fill {i} S {q}"))
+            }
+        }
+        if dom == Some(6) {
+            // NETTING: further account trades on the instrument that already holds the position: same side
+            // (increase), opposite side with a smaller / equal / larger quantity (reduce, exact close, flip)
+            for _ in 0..rng.range(1, 3) {
+                let side = if rng.chance(50) { "B" } else { "S" };
+                s.push(format!("ev fill {i} {side} {}", rng.pick(&["1", "2", "3", "0.5", "4", "1.5"])));
             }
         }
         if dom == Some(3) && rng.chance(70) {
@@ -630,6 +640,12 @@ fn generate(seed: u64, n_cases: usize, tier: &str) {
     for k in 0..extra {
         out.case(format!("d{k}"));
         gen_case(&mut drng, &mut out, tier, Some(k as u64 % 6), None);
+    }
+    // netting family (class 6), separately seeded: `n<k>`
+    let mut nrng = Rng::new(seed ^ 0x4E77_19AE_7719);
+    for k in 0..extra {
+        out.case(format!("n{k}"));
+        gen_case(&mut nrng, &mut out, tier, Some(6), None);
     }
     // configuration shapes (instrument kinds, commands through a `System` handle, degraded links), again
     // separately seeded: `c<k>`
